@@ -45,13 +45,19 @@ impl CpuInstant {
         extern "C" {
             fn clock_gettime(clk: i32, tp: *mut Timespec) -> i32;
         }
-        let mut ts = Timespec { tv_sec: 0, tv_nsec: 0 };
+        let mut ts = Timespec {
+            tv_sec: 0,
+            tv_nsec: 0,
+        };
         // 3 = CLOCK_THREAD_CPUTIME_ID on Linux
         let rc = unsafe { clock_gettime(3, &mut ts) };
         if rc != 0 {
             return CpuInstant(std::time::Duration::ZERO);
         }
-        CpuInstant(std::time::Duration::new(ts.tv_sec as u64, ts.tv_nsec as u32))
+        CpuInstant(std::time::Duration::new(
+            ts.tv_sec as u64,
+            ts.tv_nsec as u32,
+        ))
     }
     fn elapsed(&self) -> std::time::Duration {
         CpuInstant::now().0.saturating_sub(self.0)
@@ -71,25 +77,43 @@ struct Budget {
 }
 
 fn budget(handed: usize) -> Budget {
-    Budget { live: LIVE_BASE + LIVE_PER_BYTE * handed, total: TOTAL_BASE + TOTAL_PER_BYTE * handed }
+    Budget {
+        live: LIVE_BASE + LIVE_PER_BYTE * handed,
+        total: TOTAL_BASE + TOTAL_PER_BYTE * handed,
+    }
 }
 
 /// Run one operation under panic capture and allocation accounting.
-fn op<T>(st: &mut RunStats, what: &str, ep: &str, handed: usize, f: impl FnOnce() -> T) -> Result<T, Violation> {
+fn op<T>(
+    st: &mut RunStats,
+    what: &str,
+    ep: &str,
+    handed: usize,
+    f: impl FnOnce() -> T,
+) -> Result<T, Violation> {
     let base = alloc::begin();
     let r = guarded(f);
     let u = alloc::end(base);
     let b = budget(handed);
     st.inc("evaluations");
     if handed >= 4096 {
-        st.max("max:live_bytes_per_input_byte_x100(inputs>=4KiB)", (u.peak_live * 100 / handed) as u64);
-        st.max("max:total_bytes_per_input_byte_x100(inputs>=4KiB)", (u.total * 100 / handed) as u64);
+        st.max(
+            "max:live_bytes_per_input_byte_x100(inputs>=4KiB)",
+            (u.peak_live * 100 / handed) as u64,
+        );
+        st.max(
+            "max:total_bytes_per_input_byte_x100(inputs>=4KiB)",
+            (u.total * 100 / handed) as u64,
+        );
     } else {
         st.max("max:live_bytes(inputs<4KiB)", u.peak_live as u64);
         st.max("max:total_bytes(inputs<4KiB)", u.total as u64);
     }
     match r {
-        Err(p) => Err(Violation::new("C01.panic", format!("{} at {}: {}", what, ep, p))),
+        Err(p) => Err(Violation::new(
+            "C01.panic",
+            format!("{} at {}: {}", what, ep, p),
+        )),
         Ok(v) => {
             if u.peak_live > b.live {
                 return Err(Violation::new(
@@ -133,7 +157,15 @@ fn slow_check(
     let limit = abs.min(rel);
     st.max("max:op_micros", first.as_micros() as u64);
     if std::env::var_os("COSIM_TIMING").is_some() && first.as_micros() >= 500 {
-        println!("TIMING {} {} handed={} first_us={} ref_us={} ratio={:.1}", what, ep, handed, first.as_micros(), refc.as_micros(), first.as_nanos() as f64 / refc.as_nanos().max(1) as f64);
+        println!(
+            "TIMING {} {} handed={} first_us={} ref_us={} ratio={:.1}",
+            what,
+            ep,
+            handed,
+            first.as_micros(),
+            refc.as_micros(),
+            first.as_nanos() as f64 / refc.as_nanos().max(1) as f64
+        );
     }
     if first <= limit {
         return None;
@@ -171,7 +203,12 @@ fn slow_check(
 /// of the large input (best of 3) must not exceed 10 x the decode time of the small one (best of
 /// 3) plus 3 ms: linear cost gives ~4 x (up to ~7 x with cache effects and n log n sets), quadratic
 /// cost ~16 x.  Times below 3 ms are not judged.
-fn scaling_check(st: &mut RunStats, small: &[u8], large: &[u8], only: Option<&str>) -> Option<Violation> {
+fn scaling_check(
+    st: &mut RunStats,
+    small: &[u8],
+    large: &[u8],
+    only: Option<&str>,
+) -> Option<Violation> {
     let best = |ep: &Endpoint, b: &[u8]| -> std::time::Duration {
         let mut best = std::time::Duration::from_secs(3600);
         for _ in 0..3 {
@@ -265,14 +302,32 @@ fn verifier_result(ok: bool) -> impl Fn(&[u8], &[u8]) -> Result<(), String> {
 }
 
 fn decrypt_result(ok: bool) -> impl Fn(&[u8], &[u8]) -> Result<Vec<u8>, String> {
-    move |a, _b| if ok { Ok(a.to_vec()) } else { Err("derr".to_string()) }
+    move |a, _b| {
+        if ok {
+            Ok(a.to_vec())
+        } else {
+            Err("derr".to_string())
+        }
+    }
 }
 
-fn recipients_followup(st: &mut RunStats, ep: &str, rs: &[coset::CoseRecipient], aad: &[u8], ok: bool, handed: usize, depth: usize) -> Result<(), Violation> {
+fn recipients_followup(
+    st: &mut RunStats,
+    ep: &str,
+    rs: &[coset::CoseRecipient],
+    aad: &[u8],
+    ok: bool,
+    handed: usize,
+    depth: usize,
+) -> Result<(), Violation> {
     for i in pick_indices_for(rs.len(), handed) {
         let r = &rs[i];
         if r.ciphertext.is_some() {
-            for ctx in [coset::EncryptionContext::EncRecipient, coset::EncryptionContext::MacRecipient, coset::EncryptionContext::RecRecipient] {
+            for ctx in [
+                coset::EncryptionContext::EncRecipient,
+                coset::EncryptionContext::MacRecipient,
+                coset::EncryptionContext::RecRecipient,
+            ] {
                 op(st, "recipient.decrypt", ep, handed, || {
                     let _ = r.decrypt(ctx, aad, decrypt_result(ok));
                 })?;
@@ -287,7 +342,15 @@ fn recipients_followup(st: &mut RunStats, ep: &str, rs: &[coset::CoseRecipient],
 }
 
 /// Follow-up operations on an accepted value.
-fn followups(st: &mut RunStats, ep: &Endpoint, d: &Decoded, len: usize, aad: &[u8], payload: &[u8], ok: bool) -> Result<(), Violation> {
+fn followups(
+    st: &mut RunStats,
+    ep: &Endpoint,
+    d: &Decoded,
+    len: usize,
+    aad: &[u8],
+    payload: &[u8],
+    ok: bool,
+) -> Result<(), Violation> {
     let handed = len + aad.len() + payload.len();
     // clone, compare, re-encode, drop
     let c = op(st, "clone", ep.name, len, || d.clone())?;
@@ -383,15 +446,26 @@ fn followups(st: &mut RunStats, ep: &Endpoint, d: &Decoded, len: usize, aad: &[u
             // a bare COSE_Signature is what a counter-signature verifier hands to the general
             // structure function
             op(st, "sig_structure_data", n, handed, || {
-                let _ = coset::sig_structure_data(coset::SignatureContext::CounterSignature, s.protected.clone(), Some(s.protected.clone()), aad, payload);
+                let _ = coset::sig_structure_data(
+                    coset::SignatureContext::CounterSignature,
+                    s.protected.clone(),
+                    Some(s.protected.clone()),
+                    aad,
+                    payload,
+                );
             })?;
         }
         Decoded::Protected(p) => {
             op(st, "enc_structure_data", n, handed, || {
-                let _ = coset::enc_structure_data(coset::EncryptionContext::CoseEncrypt0, p.clone(), aad);
+                let _ = coset::enc_structure_data(
+                    coset::EncryptionContext::CoseEncrypt0,
+                    p.clone(),
+                    aad,
+                );
             })?;
             op(st, "mac_structure_data", n, handed, || {
-                let _ = coset::mac_structure_data(coset::MacContext::CoseMac0, p.clone(), aad, payload);
+                let _ =
+                    coset::mac_structure_data(coset::MacContext::CoseMac0, p.clone(), aad, payload);
             })?;
         }
         _ => {}
@@ -465,19 +539,32 @@ impl Engine for C01 {
             t.set_meta("faults", "scaling-probe");
             t.push(Step::new("deliver", "small", vec![Arg::B(small)]));
             t.push(Step::new("deliver", "bytes", vec![Arg::B(large)]));
-            t.push(Step::new("plan", "followup", vec![Arg::B(vec![]), Arg::B(vec![]), Arg::I(1)]));
+            t.push(Step::new(
+                "plan",
+                "followup",
+                vec![Arg::B(vec![]), Arg::B(vec![]), Arg::I(1)],
+            ));
             return t;
         }
         let cap = size_cap(tier);
         // large inputs are rare: they cost ~0.1 s per endpoint
-        let cap = if rng.chance(1, 512) { cap } else { cap.min(8 << 10) };
+        let cap = if rng.chance(1, 512) {
+            cap
+        } else {
+            cap.min(8 << 10)
+        };
         // 1 run in 1000 fills the whole size cap with siblings, 1 in 1000 with nesting: cost that
         // grows faster than the input only shows on large inputs
         let full = size_cap(tier);
         let c = match rng.below(1000) {
             0 => {
                 let (bytes, ty) = gen_wide(&mut rng, full, true);
-                Case { bytes, faults: vec!["nest(wide-siblings)".into(), "full-size".into()], base_type: ty.to_string(), depth: None }
+                Case {
+                    bytes,
+                    faults: vec!["nest(wide-siblings)".into(), "full-size".into()],
+                    base_type: ty.to_string(),
+                    depth: None,
+                }
             }
             1 => {
                 let deep = rng.bool();
@@ -488,7 +575,14 @@ impl Engine for C01 {
             _ => gen_case(&mut rng, cap),
         };
         t.set_meta("base", c.base_type.clone());
-        t.set_meta("faults", if c.faults.is_empty() { "none".to_string() } else { c.faults.join("+") });
+        t.set_meta(
+            "faults",
+            if c.faults.is_empty() {
+                "none".to_string()
+            } else {
+                c.faults.join("+")
+            },
+        );
         if let Some(d) = c.depth {
             t.set_meta("depth", d.to_string());
         }
@@ -496,7 +590,11 @@ impl Engine for C01 {
         let aad = bp[rng.weighted(&[10, 6, 10, 4, 4, 4, 2, 2, 1, 0, 0])].clone();
         let payload = bp[rng.weighted(&[10, 6, 10, 4, 4, 4, 2, 2, 1, 1, 0])].clone();
         t.push(Step::new("deliver", "bytes", vec![Arg::B(c.bytes)]));
-        t.push(Step::new("plan", "followup", vec![Arg::B(aad), Arg::B(payload), Arg::I(rng.bool() as i128)]));
+        t.push(Step::new(
+            "plan",
+            "followup",
+            vec![Arg::B(aad), Arg::B(payload), Arg::I(rng.bool() as i128)],
+        ));
         t
     }
     fn step_is_fixed(&self, _t: &Trace, _idx: usize) -> bool {
@@ -546,7 +644,13 @@ impl Engine for C01 {
         out
     }
     fn exec(&self, t: &Trace, st: &mut RunStats) -> HResult<Option<Violation>> {
-        let bytes = t.steps.iter().find(|s| s.kind == "deliver").ok_or_else(|| HarnessError("no deliver step".into()))?.bytes(0)?.to_vec();
+        let bytes = t
+            .steps
+            .iter()
+            .find(|s| s.kind == "deliver")
+            .ok_or_else(|| HarnessError("no deliver step".into()))?
+            .bytes(0)?
+            .to_vec();
         let plan = t.steps.iter().find(|s| s.kind == "plan");
         let (aad, payload, ok) = match plan {
             Some(p) => (p.bytes(0)?.to_vec(), p.bytes(1)?.to_vec(), p.int(2)? == 1),
@@ -580,7 +684,11 @@ impl Engine for C01 {
             st.distinct(2, h.finish());
         }
         if faults == "scaling-probe" {
-            if let Some(small) = t.steps.iter().find(|s| s.kind == "deliver" && s.name == "small") {
+            if let Some(small) = t
+                .steps
+                .iter()
+                .find(|s| s.kind == "deliver" && s.name == "small")
+            {
                 let small = small.bytes(0)?.to_vec();
                 if let Some(v) = scaling_check(st, &small, &bytes, only.as_deref()) {
                     return Ok(Some(v));
@@ -611,9 +719,18 @@ impl Engine for C01 {
                 Ok(r) => r,
                 Err(v) => return Ok(Some(v)),
             };
-            if let Some(v) = slow_check(st, "decode", ep.name, bytes.len(), reference, DECODE_FACTOR, t0.elapsed(), || {
-                let _ = guarded(|| (ep.decode)(&bytes));
-            }) {
+            if let Some(v) = slow_check(
+                st,
+                "decode",
+                ep.name,
+                bytes.len(),
+                reference,
+                DECODE_FACTOR,
+                t0.elapsed(),
+                || {
+                    let _ = guarded(|| (ep.decode)(&bytes));
+                },
+            ) {
                 return Ok(Some(v));
             }
             let class = match &r {
@@ -643,9 +760,19 @@ impl Engine for C01 {
                     let handed = bytes.len() + aad.len() + payload.len();
                     let el = t1.elapsed();
                     let mut scratch = RunStats::default();
-                    if let Some(v) = slow_check(st, "follow-up operations", ep.name, handed, reference, FOLLOWUP_FACTOR, el, || {
-                        let _ = followups(&mut scratch, ep, &d, bytes.len(), &aad, &payload, ok);
-                    }) {
+                    if let Some(v) = slow_check(
+                        st,
+                        "follow-up operations",
+                        ep.name,
+                        handed,
+                        reference,
+                        FOLLOWUP_FACTOR,
+                        el,
+                        || {
+                            let _ =
+                                followups(&mut scratch, ep, &d, bytes.len(), &aad, &payload, ok);
+                        },
+                    ) {
                         return Ok(Some(v));
                     }
                     if let Err(v) = op(st, "drop", ep.name, bytes.len(), move || drop(d)) {
